@@ -66,11 +66,12 @@ var queryFields = map[string][]string{
 	"responses":       {"ctx", "batch"},
 	"fees":            {"prov"},
 	"params":          {},
+	"schema":          {"name"},
 }
 
 // queryKinds lists the kinds in the order of the table of SPEC.md §4.1.
 var queryKinds = []string{"definition", "binding", "bindings", "withdraw", "context", "request", "requests",
-	"requests_by_ctx", "response", "responses", "fees", "params"}
+	"requests_by_ctx", "response", "responses", "fees", "params", "schema"}
 
 // idFields is the grammar of the lines read by `trace ids` (SPEC.md §4.3).
 var idFields = map[string][]string{
